@@ -8,14 +8,7 @@ Import ListNotations.
 Local Open Scope N_scope.
 
 (* ------------------------------------------------------------------------------------------- slot patterns *)
-(* attribute byte written by get_with_slot when the incoming slot carries [inb] *)
-Definition gws_attrs (inb : N) (a : dattrs) : N :=
-  N.lor (N.lor (N.land inb sf_INLINE_CACHE_BITS) (bits_of a)) sf_FOUND.
-(* incoming bits after one prototype step from Slot::new() *)
-Definition proto_in : N := N.lor (sf_set_not_cacheable_if_already_prototype 0) sf_PROTOTYPE.
-Definition own_pat (i : N) (a : dattrs) : slot := {| s_index := i; s_attrs := gws_attrs 0 a |}.
-Definition proto_pat (i : N) (a : dattrs) : slot := {| s_index := i; s_attrs := gws_attrs proto_in a |}.
-
+(* gws_attrs / proto_in / own_pat / proto_pat are defined in Model_C06.v *)
 Lemma own_pat_facts a :
   has_flag (gws_attrs 0 a) sf_PROTOTYPE = false /\ sf_has_get (gws_attrs 0 a) = a_g a /\ sf_has_set (gws_attrs 0 a) = a_s a /\
   sf_is_accessor_descriptor (gws_attrs 0 a) = a_is_accessor a /\ sf_is_cacheable (gws_attrs 0 a) = true /\
@@ -202,12 +195,14 @@ Proof.
   - eapply Hv; eauto.
 Qed.
 
-Lemma ic_set_entries c h s sl c' ev : ic_set c h s sl = (c', ev) ->
-  forall e, In e (c_entries c') -> In e (c_entries c) \/ e = {| e_shape := s; e_pshape := pshape_of h s sl; e_slot := sl |}.
+Lemma ic_set_entries rc kd c h k s sl c' ev bad : ic_set rc kd c h k s sl = (c', ev, bad) ->
+  forall e, In e (c_entries c') -> In e (c_entries c) \/
+    (e = {| e_shape := s; e_pshape := pshape_of h s sl; e_slot := sl |} /\ bad = negb (describes_b kd h k s sl)).
 Proof.
   unfold ic_set. destruct (c_mega c).
   - intro H; inversion H; subst; auto.
-  - destruct (N.ltb (lenN (c_entries c)) sf_PIC_CAPACITY); intro H; inversion H; subst; simpl.
+  - destruct (negb (recheck_ok rc h k s sl)); [intro H; inversion H; subst; auto|].
+    destruct (N.ltb (lenN (c_entries c)) sf_PIC_CAPACITY); intro H; inversion H; subst; simpl.
     + intros e He. apply in_app_or in He as [He|[He|[]]]; auto.
     + intros e [].
 Qed.
@@ -432,52 +427,3 @@ Qed.
 Lemma filter_visible_app a b : filter visible (a ++ b) = filter visible a ++ filter visible b.
 Proof. apply filter_app. Qed.
 
-Local Opaque ordinary_try_get chain_fuel hit_store.
-
-Lemma sim_get : forall glob stc stu kd n k o outs_u stu',
-  kd <> SSet -> IC_valid stc -> st_heap stc = st_heap stu ->
-  (forall x sl, get_obj (st_heap stc) o = Some x ->
-     fst (fst (ic_get (site_get (st_sites stc) (kd, n, k)) (st_heap stc) k (o_shape x))) = Some sl ->
-     get_regular (st_heap stc) x sl) ->
-  cached_get false glob stu (kd, n, k) o = Some (outs_u, stu') ->
-  exists outs_c stc', cached_get true glob stc (kd, n, k) o = Some (outs_c, stc') /\
-    filter visible outs_c = filter visible outs_u /\
-    st_heap stc' = st_heap stc /\ st_heap stu' = st_heap stu /\ IC_valid stc'.
-Proof.
-  intros glob stc stu kd n k o outs_u stu' Hkd Hv Hh Hreg H.
-  unfold cached_get in *. rewrite <- Hh in H. set (h := st_heap stc) in *.
-  destruct (get_obj h o) as [x|] eqn:Hx.
-  2:{ inversion H; subst. exists [ONoObj], stc. repeat split; auto. }
-  destruct (ordinary_try_get (chain_fuel h) h o k slot_new) as [[[tr r] slu]|] eqn:G; [|discriminate].
-  simpl in H.
-  destruct (ic_get (site_get (st_sites stc) (kd, n, k)) h k (o_shape x)) as [[hit c1] ev] eqn:I.
-  destruct (ic_get_spec _ _ _ _ _ _ _ I) as [Hsub Hhit].
-  assert (Hc1 : forall e, In e (c_entries c1) -> entry_ok kd h k e).
-  { intros e He. apply (cache_entries_ok stc kd n k Hv e). auto. }
-  destruct hit as [sl|].
-  - (* hit *)
-    destruct (Hhit sl eq_refl) as [-> (e & Hin & Hs & Hsl & Hcur)].
-    pose proof (cache_entries_ok stc kd n k Hv _ Hin) as Hok. fold h in Hok.
-    rewrite <- Hs in Hcur. pose proof (current_entry_describes kd h k e Hok Hcur) as Hd. rewrite Hs, Hsl in Hd.
-    assert (Hr : get_regular h x sl) by (apply (Hreg x sl eq_refl); rewrite I; reflexivity).
-    destruct (get_hit_sim kd h k o x sl tr r slu Hkd Hx Hd Hr G) as [stg [res [Hst [Hn [Ht Hrr]]]]].
-    rewrite Hst, Hn. fold (hit_get_result sl res).
-    destruct (hit_get_result sl res) as [tr' v'] eqn:Ehr. simpl in Ht, Hrr. subst tr r.
-    inversion H; subst; clear H.
-    eexists; eexists; split; [reflexivity|].
-    rewrite !filter_visible_app. simpl. repeat split; auto.
-  - (* miss / megamorphic / stale entry dropped: the same slow path, then possibly one more entry *)
-    simpl.
-    destruct (sf_is_cacheable (s_attrs slu)) eqn:Ec.
-    + destruct (ic_set c1 h (o_shape x) slu) as [c' ev'] eqn:Es.
-      assert (Hv' : IC_valid {| st_heap := h; st_sites := site_put (st_sites stc) (kd, n, k) c' |}).
-      { apply (IC_valid_put stc kd n k c' Hv). intros e He.
-        destruct (ic_set_entries _ _ _ _ _ _ Es e He) as [Ho | ->]; [auto|].
-        apply fresh_entry_ok. eapply otg_cacheable; eauto. }
-      destruct r as [v|]; [|destruct glob]; inversion H; subst; clear H;
-        (eexists; eexists; split; [reflexivity|]; rewrite !filter_visible_app; simpl; repeat split; auto).
-    + assert (Hv' : IC_valid {| st_heap := h; st_sites := site_put (st_sites stc) (kd, n, k) c1 |}).
-      { apply (IC_valid_put stc kd n k _ Hv). auto. }
-      destruct r as [v|]; [|destruct glob]; inversion H; subst; clear H;
-        (eexists; eexists; split; [reflexivity|]; rewrite !filter_visible_app; simpl; repeat split; auto).
-Qed.
